@@ -49,6 +49,7 @@ SLOTS_THOROUGH = {
     "ia": ["none", "par_from_var", "var_from_derived"],
     "readout": [0, 1],
     "double": [0, 1],
+    "scoef": ["num", "pcomp", "scomp", "tcomp"],
 }
 SLOTS_QUICK = {
     "depth": [0, 3],
@@ -62,6 +63,7 @@ SLOTS_QUICK = {
     "ia": ["none", "var_from_derived"],
     "readout": [1],
     "double": [0, 1],
+    "scoef": ["num", "scomp", "tcomp"],
 }
 
 # (state multipliers, time): none equals the initial state or t = 0
@@ -152,9 +154,16 @@ def make_spec(f):
         if f["surr"] in ("flux+var", "argderived"):
             outputs.append("sb")
             exprs.append(["mul", N(a0), N(a1)])
+        # coefficient of the surrogate flux (a second code path in the cache builder)
+        sc = {
+            "num": -1.0,
+            "pcomp": {"args": ["k1", "k2"], "expr": ["sub", N("k1"), N("k2")]},
+            "scomp": {"args": ["y"], "expr": ["mul", N("y"), V(-0.5)]},
+            "tcomp": {"args": ["time", "k2"], "expr": ["sub", N("time"), N("k2")]},
+        }[f.get("scoef", "num")]
         decl.append(
             {"kind": "surrogate", "name": "s", "args": s_args, "outputs": outputs, "exprs": exprs,
-             "stoich": {"sa": {"z": -1.0, "x": 2.0}}}
+             "stoich": {"sa": {"z": sc, "x": 2.0}}}
         )
         if "sb" in outputs:
             der("ds", ["sb", "k1"], ["add", N("sb"), N("k1")])
@@ -200,7 +209,15 @@ def make_spec(f):
 def generate(tier):
     slots = SLOTS_QUICK if tier == "quick" else SLOTS_THOROUGH
     keys = list(slots)
-    return [dict(zip(keys, combo, strict=True)) for combo in it.product(*slots.values())]
+    out = []
+    for combo in it.product(*slots.values()):
+        c = dict(zip(keys, combo, strict=True))
+        if c["surr"] == "none" and c["scoef"] != "num":
+            continue  # no surrogate, nothing to vary
+        if tier == "quick" and c["scoef"] != "num" and (c["data"] or c["untouched"] != "absent"):
+            continue
+        out.append(c)
+    return out
 
 
 def close(a, b, tol=1e-12):
